@@ -21,49 +21,59 @@ Open Scope Z_scope.
 
 (* each well-formed class variant's own production recognises its printed token sequence and recovers
    the operands (all register operands, all integers, all labels that are identifiers and not keywords) *)
-Theorem c09_render_matches : forall kws regs e ops,
+Theorem c09_render_matches : forall kwl kws regs e ops,
   wf_entry kws regs e = true -> ops_ok kws regs (s_rule e) ops = true ->
-  exists toks, render regs (s_syn e) ops = Some toks /\ matches kws regs (s_rule e) toks = Some ops.
+  exists toks, render regs (s_syn e) ops = Some toks /\ matches kwl kws regs (s_rule e) toks = Some ops.
 Proof. exact entry_render_matches. Qed.
 Print Assumptions c09_render_matches.
 
 (* the unification check is a sound over-approximation: if it fails, production t recognises no printed
    form of production s *)
-Theorem c09_unify_sound : forall kws regs s t ops toks,
+Theorem c09_unify_sound : forall kwl kws regs s t ops toks,
   forallb (atom_ok kws regs) s = true -> ops_ok kws regs s ops = true ->
-  render regs s ops = Some toks -> unify_dir regs s t = false -> matches kws regs t toks = None.
+  render regs s ops = Some toks -> unify_dir regs s t = false -> matches kwl kws regs t toks = None.
 Proof. exact unify_dir_sound. Qed.
 Print Assumptions c09_unify_sound.
 
 (* generic table theorem: for a class variant i that occurs in no pair of the ambiguity list, any production
    j of the whole grammar (ISA classes and assembler directives) that recognises its printed form is its own
    production and yields the original operands *)
-Theorem c09_roundtrip_model : forall kws regs stab extra nonwf amb,
+Theorem c09_roundtrip_model : forall kwl kws regs stab extra nonwf amb,
   table_facts kws regs stab extra nonwf amb ->
   forall i j ops ops' toks,
   (i < List.length stab)%nat -> (j < List.length (stab ++ extra))%nat ->
   in_pairs i amb = false ->
   ops_ok kws regs (s_rule (entry_at stab i)) ops = true ->
   render regs (s_syn (entry_at stab i)) ops = Some toks ->
-  matches kws regs (s_rule (entry_at (stab ++ extra) j)) toks = Some ops' ->
+  matches kwl kws regs (s_rule (entry_at (stab ++ extra) j)) toks = Some ops' ->
   j = i /\ ops' = ops.
 Proof. exact table_roundtrip. Qed.
 Print Assumptions c09_roundtrip_model.
 
 (* the same in terms of the C08 encoder model: the recognised (class variant, operands) encodes to the bytes of
    the original; tab is the C08 descriptor table of the ISA (Gen/Tab_isa_<arch>.v), looked up by (class, variant) *)
-Theorem c09_roundtrip_bytes : forall kws regs stab extra nonwf amb (tab : list instr_desc),
+Theorem c09_roundtrip_bytes : forall kwl kws regs stab extra nonwf amb (tab : list instr_desc),
   table_facts kws regs stab extra nonwf amb ->
   forall i j ops ops' toks,
   (i < List.length stab)%nat -> (j < List.length (stab ++ extra))%nat ->
   in_pairs i amb = false ->
   ops_ok kws regs (s_rule (entry_at stab i)) ops = true ->
   render regs (s_syn (entry_at stab i)) ops = Some toks ->
-  matches kws regs (s_rule (entry_at (stab ++ extra) j)) toks = Some ops' ->
+  matches kwl kws regs (s_rule (entry_at (stab ++ extra) j)) toks = Some ops' ->
   encode_instr (desc_for tab (entry_at (stab ++ extra) j)) (zops regs (s_rule (entry_at (stab ++ extra) j)) ops') =
   encode_instr (desc_for tab (entry_at stab i)) (zops regs (s_rule (entry_at stab i)) ops).
 Proof. exact table_roundtrip_bytes. Qed.
 Print Assumptions c09_roundtrip_bytes.
+
+(* REFUTED at full strength for labels: with the current `$str$ -> <keyword>` action (kwl = true) a label that is
+   a keyword in another letter case ("Add", "X5") is read back as the lower-case keyword; witness replayed on the
+   real assembler by tools/props/c09.py on every run *)
+Theorem c09_keyword_label_refuted :
+  exists kws regs e s, wf_entry kws regs e = true /\ is_ident s = true /\
+    exists toks, render regs (s_syn e) [VLabel s] = Some toks /\
+                 matches true kws regs (s_rule e) toks = Some [VLabel (lower s)] /\ lower s <> s.
+Proof. exact keyword_label_refuted. Qed.
+Print Assumptions c09_keyword_label_refuted.
 
 (* riscv: stab entries well-formed, nonwf entries not, ambiguous_riscv exactly the unifying production pairs *)
 Theorem c09_tables_riscv : table_facts kws_riscv regs_riscv stab_riscv extra_riscv nonwf_riscv ambiguous_riscv.
@@ -73,8 +83,8 @@ Print Assumptions c09_tables_riscv.
 Theorem c09_render_matches_riscv : forall i ops,
   (i < List.length stab_riscv)%nat -> ops_ok kws_riscv regs_riscv (s_rule (entry_at stab_riscv i)) ops = true ->
   exists toks, render regs_riscv (s_syn (entry_at stab_riscv i)) ops = Some toks /\
-               matches kws_riscv regs_riscv (s_rule (entry_at stab_riscv i)) toks = Some ops.
-Proof. exact (table_render_matches _ _ _ _ _ _ facts_riscv). Qed.
+               matches kwlabel_lower_riscv kws_riscv regs_riscv (s_rule (entry_at stab_riscv i)) toks = Some ops.
+Proof. exact (table_render_matches _ _ _ _ _ _ _ facts_riscv). Qed.
 Print Assumptions c09_render_matches_riscv.
 
 Theorem c09_unambiguous_riscv : forall i j ops ops' toks,
@@ -82,9 +92,9 @@ Theorem c09_unambiguous_riscv : forall i j ops ops' toks,
   in_pairs i ambiguous_riscv = false ->
   ops_ok kws_riscv regs_riscv (s_rule (entry_at stab_riscv i)) ops = true ->
   render regs_riscv (s_syn (entry_at stab_riscv i)) ops = Some toks ->
-  matches kws_riscv regs_riscv (s_rule (entry_at (stab_riscv ++ extra_riscv) j)) toks = Some ops' ->
+  matches kwlabel_lower_riscv kws_riscv regs_riscv (s_rule (entry_at (stab_riscv ++ extra_riscv) j)) toks = Some ops' ->
   j = i /\ ops' = ops.
-Proof. exact (table_roundtrip _ _ _ _ _ _ facts_riscv). Qed.
+Proof. exact (table_roundtrip _ _ _ _ _ _ _ facts_riscv). Qed.
 Print Assumptions c09_unambiguous_riscv.
 
 (* riscv_rvc: stab entries well-formed, nonwf entries not, ambiguous_riscv_rvc exactly the unifying production pairs *)
@@ -95,8 +105,8 @@ Print Assumptions c09_tables_riscv_rvc.
 Theorem c09_render_matches_riscv_rvc : forall i ops,
   (i < List.length stab_riscv_rvc)%nat -> ops_ok kws_riscv_rvc regs_riscv_rvc (s_rule (entry_at stab_riscv_rvc i)) ops = true ->
   exists toks, render regs_riscv_rvc (s_syn (entry_at stab_riscv_rvc i)) ops = Some toks /\
-               matches kws_riscv_rvc regs_riscv_rvc (s_rule (entry_at stab_riscv_rvc i)) toks = Some ops.
-Proof. exact (table_render_matches _ _ _ _ _ _ facts_riscv_rvc). Qed.
+               matches kwlabel_lower_riscv_rvc kws_riscv_rvc regs_riscv_rvc (s_rule (entry_at stab_riscv_rvc i)) toks = Some ops.
+Proof. exact (table_render_matches _ _ _ _ _ _ _ facts_riscv_rvc). Qed.
 Print Assumptions c09_render_matches_riscv_rvc.
 
 Theorem c09_unambiguous_riscv_rvc : forall i j ops ops' toks,
@@ -104,9 +114,9 @@ Theorem c09_unambiguous_riscv_rvc : forall i j ops ops' toks,
   in_pairs i ambiguous_riscv_rvc = false ->
   ops_ok kws_riscv_rvc regs_riscv_rvc (s_rule (entry_at stab_riscv_rvc i)) ops = true ->
   render regs_riscv_rvc (s_syn (entry_at stab_riscv_rvc i)) ops = Some toks ->
-  matches kws_riscv_rvc regs_riscv_rvc (s_rule (entry_at (stab_riscv_rvc ++ extra_riscv_rvc) j)) toks = Some ops' ->
+  matches kwlabel_lower_riscv_rvc kws_riscv_rvc regs_riscv_rvc (s_rule (entry_at (stab_riscv_rvc ++ extra_riscv_rvc) j)) toks = Some ops' ->
   j = i /\ ops' = ops.
-Proof. exact (table_roundtrip _ _ _ _ _ _ facts_riscv_rvc). Qed.
+Proof. exact (table_roundtrip _ _ _ _ _ _ _ facts_riscv_rvc). Qed.
 Print Assumptions c09_unambiguous_riscv_rvc.
 
 (* arm: stab entries well-formed, nonwf entries not, ambiguous_arm exactly the unifying production pairs *)
@@ -117,8 +127,8 @@ Print Assumptions c09_tables_arm.
 Theorem c09_render_matches_arm : forall i ops,
   (i < List.length stab_arm)%nat -> ops_ok kws_arm regs_arm (s_rule (entry_at stab_arm i)) ops = true ->
   exists toks, render regs_arm (s_syn (entry_at stab_arm i)) ops = Some toks /\
-               matches kws_arm regs_arm (s_rule (entry_at stab_arm i)) toks = Some ops.
-Proof. exact (table_render_matches _ _ _ _ _ _ facts_arm). Qed.
+               matches kwlabel_lower_arm kws_arm regs_arm (s_rule (entry_at stab_arm i)) toks = Some ops.
+Proof. exact (table_render_matches _ _ _ _ _ _ _ facts_arm). Qed.
 Print Assumptions c09_render_matches_arm.
 
 Theorem c09_unambiguous_arm : forall i j ops ops' toks,
@@ -126,9 +136,9 @@ Theorem c09_unambiguous_arm : forall i j ops ops' toks,
   in_pairs i ambiguous_arm = false ->
   ops_ok kws_arm regs_arm (s_rule (entry_at stab_arm i)) ops = true ->
   render regs_arm (s_syn (entry_at stab_arm i)) ops = Some toks ->
-  matches kws_arm regs_arm (s_rule (entry_at (stab_arm ++ extra_arm) j)) toks = Some ops' ->
+  matches kwlabel_lower_arm kws_arm regs_arm (s_rule (entry_at (stab_arm ++ extra_arm) j)) toks = Some ops' ->
   j = i /\ ops' = ops.
-Proof. exact (table_roundtrip _ _ _ _ _ _ facts_arm). Qed.
+Proof. exact (table_roundtrip _ _ _ _ _ _ _ facts_arm). Qed.
 Print Assumptions c09_unambiguous_arm.
 
 (* thumb: stab entries well-formed, nonwf entries not, ambiguous_thumb exactly the unifying production pairs *)
@@ -139,8 +149,8 @@ Print Assumptions c09_tables_thumb.
 Theorem c09_render_matches_thumb : forall i ops,
   (i < List.length stab_thumb)%nat -> ops_ok kws_thumb regs_thumb (s_rule (entry_at stab_thumb i)) ops = true ->
   exists toks, render regs_thumb (s_syn (entry_at stab_thumb i)) ops = Some toks /\
-               matches kws_thumb regs_thumb (s_rule (entry_at stab_thumb i)) toks = Some ops.
-Proof. exact (table_render_matches _ _ _ _ _ _ facts_thumb). Qed.
+               matches kwlabel_lower_thumb kws_thumb regs_thumb (s_rule (entry_at stab_thumb i)) toks = Some ops.
+Proof. exact (table_render_matches _ _ _ _ _ _ _ facts_thumb). Qed.
 Print Assumptions c09_render_matches_thumb.
 
 Theorem c09_unambiguous_thumb : forall i j ops ops' toks,
@@ -148,9 +158,9 @@ Theorem c09_unambiguous_thumb : forall i j ops ops' toks,
   in_pairs i ambiguous_thumb = false ->
   ops_ok kws_thumb regs_thumb (s_rule (entry_at stab_thumb i)) ops = true ->
   render regs_thumb (s_syn (entry_at stab_thumb i)) ops = Some toks ->
-  matches kws_thumb regs_thumb (s_rule (entry_at (stab_thumb ++ extra_thumb) j)) toks = Some ops' ->
+  matches kwlabel_lower_thumb kws_thumb regs_thumb (s_rule (entry_at (stab_thumb ++ extra_thumb) j)) toks = Some ops' ->
   j = i /\ ops' = ops.
-Proof. exact (table_roundtrip _ _ _ _ _ _ facts_thumb). Qed.
+Proof. exact (table_roundtrip _ _ _ _ _ _ _ facts_thumb). Qed.
 Print Assumptions c09_unambiguous_thumb.
 
 (* x86_64: stab entries well-formed, nonwf entries not, ambiguous_x86_64 exactly the unifying production pairs *)
@@ -161,8 +171,8 @@ Print Assumptions c09_tables_x86_64.
 Theorem c09_render_matches_x86_64 : forall i ops,
   (i < List.length stab_x86_64)%nat -> ops_ok kws_x86_64 regs_x86_64 (s_rule (entry_at stab_x86_64 i)) ops = true ->
   exists toks, render regs_x86_64 (s_syn (entry_at stab_x86_64 i)) ops = Some toks /\
-               matches kws_x86_64 regs_x86_64 (s_rule (entry_at stab_x86_64 i)) toks = Some ops.
-Proof. exact (table_render_matches _ _ _ _ _ _ facts_x86_64). Qed.
+               matches kwlabel_lower_x86_64 kws_x86_64 regs_x86_64 (s_rule (entry_at stab_x86_64 i)) toks = Some ops.
+Proof. exact (table_render_matches _ _ _ _ _ _ _ facts_x86_64). Qed.
 Print Assumptions c09_render_matches_x86_64.
 
 Theorem c09_unambiguous_x86_64 : forall i j ops ops' toks,
@@ -170,9 +180,9 @@ Theorem c09_unambiguous_x86_64 : forall i j ops ops' toks,
   in_pairs i ambiguous_x86_64 = false ->
   ops_ok kws_x86_64 regs_x86_64 (s_rule (entry_at stab_x86_64 i)) ops = true ->
   render regs_x86_64 (s_syn (entry_at stab_x86_64 i)) ops = Some toks ->
-  matches kws_x86_64 regs_x86_64 (s_rule (entry_at (stab_x86_64 ++ extra_x86_64) j)) toks = Some ops' ->
+  matches kwlabel_lower_x86_64 kws_x86_64 regs_x86_64 (s_rule (entry_at (stab_x86_64 ++ extra_x86_64) j)) toks = Some ops' ->
   j = i /\ ops' = ops.
-Proof. exact (table_roundtrip _ _ _ _ _ _ facts_x86_64). Qed.
+Proof. exact (table_roundtrip _ _ _ _ _ _ _ facts_x86_64). Qed.
 Print Assumptions c09_unambiguous_x86_64.
 
 (* msp430: stab entries well-formed, nonwf entries not, ambiguous_msp430 exactly the unifying production pairs *)
@@ -183,8 +193,8 @@ Print Assumptions c09_tables_msp430.
 Theorem c09_render_matches_msp430 : forall i ops,
   (i < List.length stab_msp430)%nat -> ops_ok kws_msp430 regs_msp430 (s_rule (entry_at stab_msp430 i)) ops = true ->
   exists toks, render regs_msp430 (s_syn (entry_at stab_msp430 i)) ops = Some toks /\
-               matches kws_msp430 regs_msp430 (s_rule (entry_at stab_msp430 i)) toks = Some ops.
-Proof. exact (table_render_matches _ _ _ _ _ _ facts_msp430). Qed.
+               matches kwlabel_lower_msp430 kws_msp430 regs_msp430 (s_rule (entry_at stab_msp430 i)) toks = Some ops.
+Proof. exact (table_render_matches _ _ _ _ _ _ _ facts_msp430). Qed.
 Print Assumptions c09_render_matches_msp430.
 
 Theorem c09_unambiguous_msp430 : forall i j ops ops' toks,
@@ -192,9 +202,9 @@ Theorem c09_unambiguous_msp430 : forall i j ops ops' toks,
   in_pairs i ambiguous_msp430 = false ->
   ops_ok kws_msp430 regs_msp430 (s_rule (entry_at stab_msp430 i)) ops = true ->
   render regs_msp430 (s_syn (entry_at stab_msp430 i)) ops = Some toks ->
-  matches kws_msp430 regs_msp430 (s_rule (entry_at (stab_msp430 ++ extra_msp430) j)) toks = Some ops' ->
+  matches kwlabel_lower_msp430 kws_msp430 regs_msp430 (s_rule (entry_at (stab_msp430 ++ extra_msp430) j)) toks = Some ops' ->
   j = i /\ ops' = ops.
-Proof. exact (table_roundtrip _ _ _ _ _ _ facts_msp430). Qed.
+Proof. exact (table_roundtrip _ _ _ _ _ _ _ facts_msp430). Qed.
 Print Assumptions c09_unambiguous_msp430.
 
 (* avr: stab entries well-formed, nonwf entries not, ambiguous_avr exactly the unifying production pairs *)
@@ -205,8 +215,8 @@ Print Assumptions c09_tables_avr.
 Theorem c09_render_matches_avr : forall i ops,
   (i < List.length stab_avr)%nat -> ops_ok kws_avr regs_avr (s_rule (entry_at stab_avr i)) ops = true ->
   exists toks, render regs_avr (s_syn (entry_at stab_avr i)) ops = Some toks /\
-               matches kws_avr regs_avr (s_rule (entry_at stab_avr i)) toks = Some ops.
-Proof. exact (table_render_matches _ _ _ _ _ _ facts_avr). Qed.
+               matches kwlabel_lower_avr kws_avr regs_avr (s_rule (entry_at stab_avr i)) toks = Some ops.
+Proof. exact (table_render_matches _ _ _ _ _ _ _ facts_avr). Qed.
 Print Assumptions c09_render_matches_avr.
 
 Theorem c09_unambiguous_avr : forall i j ops ops' toks,
@@ -214,9 +224,9 @@ Theorem c09_unambiguous_avr : forall i j ops ops' toks,
   in_pairs i ambiguous_avr = false ->
   ops_ok kws_avr regs_avr (s_rule (entry_at stab_avr i)) ops = true ->
   render regs_avr (s_syn (entry_at stab_avr i)) ops = Some toks ->
-  matches kws_avr regs_avr (s_rule (entry_at (stab_avr ++ extra_avr) j)) toks = Some ops' ->
+  matches kwlabel_lower_avr kws_avr regs_avr (s_rule (entry_at (stab_avr ++ extra_avr) j)) toks = Some ops' ->
   j = i /\ ops' = ops.
-Proof. exact (table_roundtrip _ _ _ _ _ _ facts_avr). Qed.
+Proof. exact (table_roundtrip _ _ _ _ _ _ _ facts_avr). Qed.
 Print Assumptions c09_unambiguous_avr.
 
 (* m68k: stab entries well-formed, nonwf entries not, ambiguous_m68k exactly the unifying production pairs *)
@@ -227,8 +237,8 @@ Print Assumptions c09_tables_m68k.
 Theorem c09_render_matches_m68k : forall i ops,
   (i < List.length stab_m68k)%nat -> ops_ok kws_m68k regs_m68k (s_rule (entry_at stab_m68k i)) ops = true ->
   exists toks, render regs_m68k (s_syn (entry_at stab_m68k i)) ops = Some toks /\
-               matches kws_m68k regs_m68k (s_rule (entry_at stab_m68k i)) toks = Some ops.
-Proof. exact (table_render_matches _ _ _ _ _ _ facts_m68k). Qed.
+               matches kwlabel_lower_m68k kws_m68k regs_m68k (s_rule (entry_at stab_m68k i)) toks = Some ops.
+Proof. exact (table_render_matches _ _ _ _ _ _ _ facts_m68k). Qed.
 Print Assumptions c09_render_matches_m68k.
 
 Theorem c09_unambiguous_m68k : forall i j ops ops' toks,
@@ -236,9 +246,9 @@ Theorem c09_unambiguous_m68k : forall i j ops ops' toks,
   in_pairs i ambiguous_m68k = false ->
   ops_ok kws_m68k regs_m68k (s_rule (entry_at stab_m68k i)) ops = true ->
   render regs_m68k (s_syn (entry_at stab_m68k i)) ops = Some toks ->
-  matches kws_m68k regs_m68k (s_rule (entry_at (stab_m68k ++ extra_m68k) j)) toks = Some ops' ->
+  matches kwlabel_lower_m68k kws_m68k regs_m68k (s_rule (entry_at (stab_m68k ++ extra_m68k) j)) toks = Some ops' ->
   j = i /\ ops' = ops.
-Proof. exact (table_roundtrip _ _ _ _ _ _ facts_m68k). Qed.
+Proof. exact (table_roundtrip _ _ _ _ _ _ _ facts_m68k). Qed.
 Print Assumptions c09_unambiguous_m68k.
 
 (* mips: stab entries well-formed, nonwf entries not, ambiguous_mips exactly the unifying production pairs *)
@@ -249,8 +259,8 @@ Print Assumptions c09_tables_mips.
 Theorem c09_render_matches_mips : forall i ops,
   (i < List.length stab_mips)%nat -> ops_ok kws_mips regs_mips (s_rule (entry_at stab_mips i)) ops = true ->
   exists toks, render regs_mips (s_syn (entry_at stab_mips i)) ops = Some toks /\
-               matches kws_mips regs_mips (s_rule (entry_at stab_mips i)) toks = Some ops.
-Proof. exact (table_render_matches _ _ _ _ _ _ facts_mips). Qed.
+               matches kwlabel_lower_mips kws_mips regs_mips (s_rule (entry_at stab_mips i)) toks = Some ops.
+Proof. exact (table_render_matches _ _ _ _ _ _ _ facts_mips). Qed.
 Print Assumptions c09_render_matches_mips.
 
 Theorem c09_unambiguous_mips : forall i j ops ops' toks,
@@ -258,9 +268,9 @@ Theorem c09_unambiguous_mips : forall i j ops ops' toks,
   in_pairs i ambiguous_mips = false ->
   ops_ok kws_mips regs_mips (s_rule (entry_at stab_mips i)) ops = true ->
   render regs_mips (s_syn (entry_at stab_mips i)) ops = Some toks ->
-  matches kws_mips regs_mips (s_rule (entry_at (stab_mips ++ extra_mips) j)) toks = Some ops' ->
+  matches kwlabel_lower_mips kws_mips regs_mips (s_rule (entry_at (stab_mips ++ extra_mips) j)) toks = Some ops' ->
   j = i /\ ops' = ops.
-Proof. exact (table_roundtrip _ _ _ _ _ _ facts_mips). Qed.
+Proof. exact (table_roundtrip _ _ _ _ _ _ _ facts_mips). Qed.
 Print Assumptions c09_unambiguous_mips.
 
 (* or1k: stab entries well-formed, nonwf entries not, ambiguous_or1k exactly the unifying production pairs *)
@@ -271,8 +281,8 @@ Print Assumptions c09_tables_or1k.
 Theorem c09_render_matches_or1k : forall i ops,
   (i < List.length stab_or1k)%nat -> ops_ok kws_or1k regs_or1k (s_rule (entry_at stab_or1k i)) ops = true ->
   exists toks, render regs_or1k (s_syn (entry_at stab_or1k i)) ops = Some toks /\
-               matches kws_or1k regs_or1k (s_rule (entry_at stab_or1k i)) toks = Some ops.
-Proof. exact (table_render_matches _ _ _ _ _ _ facts_or1k). Qed.
+               matches kwlabel_lower_or1k kws_or1k regs_or1k (s_rule (entry_at stab_or1k i)) toks = Some ops.
+Proof. exact (table_render_matches _ _ _ _ _ _ _ facts_or1k). Qed.
 Print Assumptions c09_render_matches_or1k.
 
 Theorem c09_unambiguous_or1k : forall i j ops ops' toks,
@@ -280,9 +290,9 @@ Theorem c09_unambiguous_or1k : forall i j ops ops' toks,
   in_pairs i ambiguous_or1k = false ->
   ops_ok kws_or1k regs_or1k (s_rule (entry_at stab_or1k i)) ops = true ->
   render regs_or1k (s_syn (entry_at stab_or1k i)) ops = Some toks ->
-  matches kws_or1k regs_or1k (s_rule (entry_at (stab_or1k ++ extra_or1k) j)) toks = Some ops' ->
+  matches kwlabel_lower_or1k kws_or1k regs_or1k (s_rule (entry_at (stab_or1k ++ extra_or1k) j)) toks = Some ops' ->
   j = i /\ ops' = ops.
-Proof. exact (table_roundtrip _ _ _ _ _ _ facts_or1k). Qed.
+Proof. exact (table_roundtrip _ _ _ _ _ _ _ facts_or1k). Qed.
 Print Assumptions c09_unambiguous_or1k.
 
 (* xtensa: stab entries well-formed, nonwf entries not, ambiguous_xtensa exactly the unifying production pairs *)
@@ -293,8 +303,8 @@ Print Assumptions c09_tables_xtensa.
 Theorem c09_render_matches_xtensa : forall i ops,
   (i < List.length stab_xtensa)%nat -> ops_ok kws_xtensa regs_xtensa (s_rule (entry_at stab_xtensa i)) ops = true ->
   exists toks, render regs_xtensa (s_syn (entry_at stab_xtensa i)) ops = Some toks /\
-               matches kws_xtensa regs_xtensa (s_rule (entry_at stab_xtensa i)) toks = Some ops.
-Proof. exact (table_render_matches _ _ _ _ _ _ facts_xtensa). Qed.
+               matches kwlabel_lower_xtensa kws_xtensa regs_xtensa (s_rule (entry_at stab_xtensa i)) toks = Some ops.
+Proof. exact (table_render_matches _ _ _ _ _ _ _ facts_xtensa). Qed.
 Print Assumptions c09_render_matches_xtensa.
 
 Theorem c09_unambiguous_xtensa : forall i j ops ops' toks,
@@ -302,9 +312,9 @@ Theorem c09_unambiguous_xtensa : forall i j ops ops' toks,
   in_pairs i ambiguous_xtensa = false ->
   ops_ok kws_xtensa regs_xtensa (s_rule (entry_at stab_xtensa i)) ops = true ->
   render regs_xtensa (s_syn (entry_at stab_xtensa i)) ops = Some toks ->
-  matches kws_xtensa regs_xtensa (s_rule (entry_at (stab_xtensa ++ extra_xtensa) j)) toks = Some ops' ->
+  matches kwlabel_lower_xtensa kws_xtensa regs_xtensa (s_rule (entry_at (stab_xtensa ++ extra_xtensa) j)) toks = Some ops' ->
   j = i /\ ops' = ops.
-Proof. exact (table_roundtrip _ _ _ _ _ _ facts_xtensa). Qed.
+Proof. exact (table_roundtrip _ _ _ _ _ _ _ facts_xtensa). Qed.
 Print Assumptions c09_unambiguous_xtensa.
 
 (* microblaze: stab entries well-formed, nonwf entries not, ambiguous_microblaze exactly the unifying production pairs *)
@@ -315,8 +325,8 @@ Print Assumptions c09_tables_microblaze.
 Theorem c09_render_matches_microblaze : forall i ops,
   (i < List.length stab_microblaze)%nat -> ops_ok kws_microblaze regs_microblaze (s_rule (entry_at stab_microblaze i)) ops = true ->
   exists toks, render regs_microblaze (s_syn (entry_at stab_microblaze i)) ops = Some toks /\
-               matches kws_microblaze regs_microblaze (s_rule (entry_at stab_microblaze i)) toks = Some ops.
-Proof. exact (table_render_matches _ _ _ _ _ _ facts_microblaze). Qed.
+               matches kwlabel_lower_microblaze kws_microblaze regs_microblaze (s_rule (entry_at stab_microblaze i)) toks = Some ops.
+Proof. exact (table_render_matches _ _ _ _ _ _ _ facts_microblaze). Qed.
 Print Assumptions c09_render_matches_microblaze.
 
 Theorem c09_unambiguous_microblaze : forall i j ops ops' toks,
@@ -324,9 +334,9 @@ Theorem c09_unambiguous_microblaze : forall i j ops ops' toks,
   in_pairs i ambiguous_microblaze = false ->
   ops_ok kws_microblaze regs_microblaze (s_rule (entry_at stab_microblaze i)) ops = true ->
   render regs_microblaze (s_syn (entry_at stab_microblaze i)) ops = Some toks ->
-  matches kws_microblaze regs_microblaze (s_rule (entry_at (stab_microblaze ++ extra_microblaze) j)) toks = Some ops' ->
+  matches kwlabel_lower_microblaze kws_microblaze regs_microblaze (s_rule (entry_at (stab_microblaze ++ extra_microblaze) j)) toks = Some ops' ->
   j = i /\ ops' = ops.
-Proof. exact (table_roundtrip _ _ _ _ _ _ facts_microblaze). Qed.
+Proof. exact (table_roundtrip _ _ _ _ _ _ _ facts_microblaze). Qed.
 Print Assumptions c09_unambiguous_microblaze.
 
 (* hypotheses are inhabited: riscv entry 0 is unambiguous, in range, prints and is recognised *)
@@ -337,7 +347,7 @@ Example c09_nonvacuous :
   (Nat.ltb 0 (List.length stab_riscv) && negb (in_pairs 0 ambiguous_riscv) &&
    ops_ok kws_riscv regs_riscv (s_rule e) ops &&
    match render regs_riscv (s_syn e) ops with
-   | Some toks => match matches kws_riscv regs_riscv (s_rule e) toks with Some o => true | None => false end
+   | Some toks => match matches kwlabel_lower_riscv kws_riscv regs_riscv (s_rule e) toks with Some o => true | None => false end
    | None => false
    end)%bool = true.
 Proof. vm_compute. reflexivity. Qed.
